@@ -73,10 +73,19 @@ where
             // NOTE(ed): Lack of running
             compile_with_reader_to_writer(args, reader, buf.by_ref())?;
 
-            File::create(s)
-                .expect(&format!("Failed to create file: {}", s.display()))
-                .write(&buf)
-                .map_err(|e| vec![Error::IOError(Rc::new(e))])?;
+            // Write the whole program next to the target and rename it into place, so that
+            // FILE is either the complete program or untouched (a short or failed write must
+            // not leave a truncated file behind or be reported as success).
+            let mut tmp = s.as_os_str().to_owned();
+            tmp.push(".tmp");
+            let tmp = PathBuf::from(tmp);
+            let written = File::create(&tmp)
+                .and_then(|mut file| file.write_all(&buf))
+                .and_then(|_| std::fs::rename(&tmp, s));
+            if let Err(e) = written {
+                let _ = std::fs::remove_file(&tmp);
+                return Err(vec![Error::IOError(Rc::new(e))]);
+            }
         }
     };
     Ok(())
